@@ -80,6 +80,9 @@ def larger_pairs(count: int, seed: int):
     out = []
     for k in range(count):
         n = 6 + k % 3
+        deep = k % 5 == 4           # 9-13 elements, input rankings with 9+ buckets: deep recursion / long merges
+        if deep:
+            n = 9 + (k // 5) % 5
         elems = list(range(1, n + 1))
 
         def weak(sub, max_buckets):
@@ -94,9 +97,34 @@ def larger_pairs(count: int, seed: int):
             return [b for b in parts if b]
         cand = weak(elems, rnd.choice((2, 3, n)))
         present = [e for e in elems if rnd.random() < (0.55 if k % 2 else 0.9)] or elems[:1]
-        rk = weak(present, rnd.choice((1, 2, 4, n)))
+        if deep:
+            present = [e for e in elems if rnd.random() < 0.95] if k % 2 else elems
+            rk = weak(present, n)
+            while len(rk) < min(9, len(present)):          # force many buckets
+                big = max(rk, key=len)
+                if len(big) < 2:
+                    break
+                x = sorted(big)[0]
+                big.discard(x)
+                rk.insert(rnd.randint(0, len(rk)), {x})
+        else:
+            rk = weak(present, rnd.choice((1, 2, 4, n)))
         out.append((cand, [rk]))
     return out
+
+
+# (initial dataset, [(operation, argument, candidate scored afterwards)])
+HISTORIES = [
+    ([[{1}, {2}, {3}], [{2}, {1}], [{3}, {4}]],
+     [("none", None, [{1}, {2}, {3}, {4}]), ("remove", {4}, [{2}, {1, 3}]), ("none", None, [{3}, {2}, {1}]),
+      ("remove", {1}, [{3}, {2}]), ("none", None, [{3}])]),
+    ([[{1, 2}, {3}], [{3}, {1}], [{2}], [{4}, {1}]],
+     [("none", None, [{4}, {1, 2}, {3}]), ("rate", 0.5, [{3}, {1}]), ("other", [[{5}, {6}], [{6}, {5, 7}]], [{7}, {5}, {6}]),
+      ("none", None, [{5}, {6}])]),
+    ([[{1}, {2}], [{3}], [{2}, {1}]],
+     [("none", None, [{1}, {2}, {3}]), ("remove", {3}, [{1}, {2}]), ("empty", None, [{2}, {1}]),
+      ("other", [[{1}, {2}], [{3}], [{2}, {1}]], [{1}, {2}, {3}]), ("none", None, [{1}, {2}])]),
+]
 
 
 class KWorld(World):
@@ -117,10 +145,10 @@ class KWorld(World):
             return base.abs_call(args, kw, ev, node)
         self.rt.externals["numpy.vdot"] = ExternalFunc(vdot)
 
-    def score_form(self, candidate, rankings):
+    def score_form(self, candidate, rankings, ds=None):
         """('ok', linear form, returned number) | ('raise', name, None)"""
         self.vdots.clear()
-        ds = self.dataset(rankings)
+        ds = self.dataset(rankings) if ds is None else ds
         c = self.ranking(candidate)
         try:
             ret = self.rt.call_method(self.factory, "get_kemeny_score", c, ds)
@@ -216,6 +244,7 @@ def run(ctx) -> Result:
                   bad_detail=(f"candidate {mine[0][1]} vs input ranking {mine[0][2][0]}: {mine[0][3]}; {mine[0][4]} "
                               f"[{len(mine)}+ failing pairs]") if mine else "")
     res.extra["pairs_evaluated"] = total
+    res.explored_threshold = 11        # input rankings with up to 13 buckets are among the larger pairs
 
     # ------------------------------------------------------------------ R4
     w = KWorld(proj)
@@ -248,6 +277,42 @@ def run(ctx) -> Result:
     st, lin, ret = w.score_form([{5}], [[{5}]])
     res.check(st == "ok" and ret == 0, "R4", "get_kemeny_score:single-element", gks.loc(),
               ok_detail="a one-element universe scores 0", bad_detail=f"{st} {ret!r}")
+
+    # ------------------------------------------------------------------ R5
+    # one factory, a history of calls: the score is a function of the candidate and of what the dataset contains *now*
+    hist_bad = None
+    steps = 0
+    try:
+        for start, muts in HISTORIES:
+            ds = w.dataset(start)
+            for op, arg, cand in muts:
+                if op == "remove":
+                    w.call(ds, "remove_elements", {w.element(x) for x in arg})
+                elif op == "rate":
+                    w.call(ds, "remove_elements_rate_presence_lower_than", arg)
+                elif op == "empty":
+                    w.call(ds, "remove_empty_rankings")
+                elif op == "other":
+                    ds = w.dataset(arg)
+                now = [[{k[1] for k in b} for b in r] for r in w.raw_dataset(ds)]
+                st, lin, ret = w.score_form(cand, now, ds=ds)
+                steps += 1
+                uni = set().union(*[b for r in now for b in r]) if any(now) else set()
+                covered = uni <= set().union(*cand) if cand else not uni
+                if covered:
+                    want = definitional(cand, now)
+                    if st != "ok" or lin is None or S.normalise_scheme_lin(lin, enforced) != S.normalise_scheme_lin(want, enforced):
+                        hist_bad = hist_bad or (start, op, arg, cand, now, f"{st} {lin!r}", f"definition {S.normalise_scheme_lin(want, enforced)!r}")
+                elif not (st == "raise" and lin == "InvalidRankingsForComputingDistance"):
+                    hist_bad = hist_bad or (start, op, arg, cand, now, f"{st} {lin!r}", "the candidate lacks an element: refusal expected")
+    except Unsupported as exc:
+        raise AnalysisError(f"history scenario: unsupported construct at line {getattr(exc.node, 'lineno', '?')}: {exc}")
+    res.rule("R5", "one factory over a history of calls (dataset mutated in place, other datasets in between): every "
+                   "score is that of the dataset's current content", 1)
+    res.check(hist_bad is None, "R5", "get_kemeny_score:history-independent", gks.loc(),
+              ok_detail=f"{steps} scorings along {len(HISTORIES)} histories agree with the definition on the current content",
+              bad_detail=(f"dataset {hist_bad[0]} after {hist_bad[1]}({hist_bad[2]}) now holds {hist_bad[4]}; candidate "
+                          f"{hist_bad[3]}: {hist_bad[5]}; {hist_bad[6]}") if hist_bad else "")
 
     # ------------------------------------------------------------------ R1
     refused = [([{1}, {2}], [[{1}, {2}, {3}]]), ([{1}], [[{2}]]), ([], [[{1}]]), ([{1, 2}], [[{1}], [{3}, {2}]])]
